@@ -231,10 +231,31 @@ var c09NlvCtr, c09FieldCtr int
 var c09ItemsCtr int
 
 // variants of a pair of values for an Interface-typed property (c09TwoValues): 0 = two single items with different ids,
-// 1..6 = lists in the item position and id-less links
+// 1..6 = lists in the item position and id-less links, 7..10 = lists with a REPEATED member that differ only in how often
+// a member occurs ([a a] / [a b], [a b a] / [a b b], the same on objects, [a a b] / [a b b]): equal as sets, not as lists
 var c09IfaceCtr int
 
-const c09IfaceVariants = 7
+const c09IfaceVariants = 11
+
+// list-typed properties: 0..2 = drawn (membership, length, kinds), 3 / 4 = only the first / the middle member differs,
+// 5..8 = a repeated member (as for Interface-typed properties)
+const c09ItemsVariants = 9
+
+// pairs of lists over two different members a, b that differ only in multiplicities; which = 0..3
+func c09Repeated(g *Gen, ca, cb, which int) (ap.ItemCollection, ap.ItemCollection) {
+	switch which % 4 {
+	case 0: // [a a] / [a b]: every member of the first is a member of the second
+		return ap.ItemCollection{c09ID(g, ca), c09ID(g, ca)}, ap.ItemCollection{c09ID(g, ca), c09ID(g, cb)}
+	case 1: // [a b a] / [a b b]: the same members on both sides
+		return ap.ItemCollection{c09ID(g, ca), c09ID(g, cb), c09ID(g, ca)}, ap.ItemCollection{c09ID(g, ca), c09ID(g, cb), c09ID(g, cb)}
+	case 2: // [A A] / [A B] on objects
+		mk := func(c int) ap.Item { return &ap.Object{ID: c09ID(g, c), Type: ap.NoteType} }
+		return ap.ItemCollection{mk(ca), mk(ca)}, ap.ItemCollection{mk(ca), mk(cb)}
+	default: // [a a b] / [a b b]: a repeated member on both sides, an object among IRIs
+		ob := &ap.Object{ID: c09ID(g, cb), Type: ap.NoteType}
+		return ap.ItemCollection{c09ID(g, ca), c09ID(g, ca), ob}, ap.ItemCollection{c09ID(g, ca), ob, c09ID(g, cb)}
+	}
+}
 
 func c09TwoValues(g *Gen, t reflect.Type) (reflect.Value, reflect.Value) {
 	ca := g.Intn(len(c09Cur))
@@ -242,7 +263,10 @@ func c09TwoValues(g *Gen, t reflect.Type) (reflect.Value, reflect.Value) {
 	switch {
 	case t == tItems:
 		c09ItemsCtr++
-		switch c09ItemsCtr % 6 {
+		switch v := c09ItemsCtr % c09ItemsVariants; v {
+		case 5, 6, 7, 8:
+			la, lb := c09Repeated(g, ca, cb, v-5)
+			return reflect.ValueOf(la), reflect.ValueOf(lb)
 		case 3: // same length, only the FIRST of two members differs
 			cc := (cb + 1) % len(c09Cur)
 			if cc == ca {
@@ -278,14 +302,17 @@ func c09TwoValues(g *Gen, t reflect.Type) (reflect.Value, reflect.Value) {
 			}
 		}
 		// an item position may hold a list ("url ... identifies one or more links") or an id-less value: the variants
-		// are taken in turn (seven of them: coprime to the number of activity properties and of core properties, so
+		// are taken in turn (eleven of them: coprime to the number of activity properties and of core properties, so
 		// every property meets every variant)
 		c09IfaceCtr++
 		cc := (cb + 1) % len(c09Cur)
 		if cc == ca {
 			cc = (cc + 1) % len(c09Cur)
 		}
-		switch c09IfaceCtr % c09IfaceVariants {
+		switch v := c09IfaceCtr % c09IfaceVariants; v {
+		case 7, 8, 9, 10:
+			la, lb := c09Repeated(g, ca, cb, v-7)
+			return reflect.ValueOf(la), reflect.ValueOf(lb)
 		case 1: // one-member lists that differ in the member
 			return reflect.ValueOf(ap.ItemCollection{c09ID(g, ca)}), reflect.ValueOf(ap.ItemCollection{c09ID(g, cb)})
 		case 2: // two-member lists, only the FIRST member differs
@@ -618,7 +645,10 @@ func c09Sections(g *Gen, cc *c09Cases, n int, tier string, wide bool) []ap.Item 
 				variants = 4
 			}
 			if ft.Kind() == reflect.Interface {
-				variants = c09IfaceVariants // single items, lists in the item position, id-less links: each once
+				variants = c09IfaceVariants // single items, lists in the item position, id-less links, repeated members: each once
+			}
+			if ft == tItems {
+				variants = c09ItemsVariants
 			}
 			for v := 0; v < variants; v++ {
 				va, vb := c09TwoValues(g, ft)
@@ -660,6 +690,35 @@ func c09Sections(g *Gen, cc *c09Cases, n int, tier string, wide bool) []ap.Item 
 				if ki%4 == 0 {
 					emit(a, b, fmt.Sprintf("directed list vs member %s.%s", structTypes[ki].Name(), f))
 					emit(b, a, fmt.Sprintf("directed list vs member %s.%s swapped", structTypes[ki].Name(), f))
+				}
+			}
+			if idCarrying(ft) {
+				// a repeated member is no reason for inequality: separately built copies holding [a a], [a b a] and
+				// [A A] (objects) in the property are equal in both argument orders
+				for w := 0; w < 3; w++ {
+					ca := ki + len(f) + w
+					l1, _ := c09Repeated(g, ca, ca+1, w)
+					l2 := make(ap.ItemCollection, len(l1))
+					for i, m := range l1 {
+						if ob, isOb := m.(*ap.Object); isOb {
+							cp := *ob
+							l2[i] = &cp
+						} else {
+							l2[i] = m
+						}
+					}
+					a, b := c09With(x, f, reflect.ValueOf(l1)), c09With(x, f, reflect.ValueOf(l2))
+					for _, pr := range [][2]ap.Item{{a, b}, {b, a}} {
+						r, p, msg := c09Eq(pr[0], pr[1])
+						rep.Evaluations++
+						rep.Count("repeated-member:copy equal")
+						if p || !r {
+							violate("ItemsEqual(x, copy of x) with a repeated member in "+f, pr[0], pr[1], "true", show(r, p, msg), "")
+						}
+					}
+					if (ki+w)%6 == 0 {
+						emit(a, b, fmt.Sprintf("directed repeated member copy %s.%s", structTypes[ki].Name(), f))
+					}
 				}
 			}
 		}
